@@ -103,6 +103,18 @@ CHECKS = {
         design_ref="DESIGN.md section 3 C31, section 8",
         technique="who-may-call scan; iterator data-flow classification; forward must-analysis; comparator closure shape",
     ),
+    "C35": dict(
+        category="other",
+        text="Decides the edge protocol of user components and the payload/mask pairing of the host-side copies: in both "
+             "Simulator functions that commit the FF write log, inputs are staged on every path to the commit on which components "
+             "exist, nothing is staged after it, components are fired after it on every path (unless there are none), no commit can "
+             "follow a fire, and exactly the staged events are fired; stage/fire use the same event mapping and listener test, fire "
+             "precedes apply_outputs, written outputs mark combinational logic dirty; every raw copy in stage_inputs/apply_outputs "
+             "moves payload storage to payload storage and mask storage (base+native_bytes, *_mask) to mask storage, mask copies only "
+             "under use_4state. It does not decide bit-exact marshalling at every width, nor the wasm transport (not compiled here).",
+        design_ref="DESIGN.md section 3 C35, section 8.4f",
+        technique="must-pass-through / must-facts on MIR CFG with feasibility pruning; argument-shape agreement of sibling calls; pointer access-path pairing",
+    ),
     "C36": dict(
         category="proof",
         text="Decides the encoding tables at the external boundaries: the four svLogicVecVal conversions (encode/decode x U64/BigUint) "
